@@ -593,7 +593,9 @@ func (b *RefinementBuilder) NewValue() (ret Value) {
 
 	return Value{
 		ty: b.orig.ty,
-		v:  &unknownType{refinement: b.wip},
+		// The new value gets its own copy of the refinement so that further
+		// calls on this builder cannot change a value that was already returned.
+		v: &unknownType{refinement: b.wip.copy()},
 	}
 }
 
